@@ -38,6 +38,7 @@ class CPreProcessor:
         self.files = []  # Stack of included files.
         self.counter = 0  # For the __COUNTER__ macro
         self._int_type = types.BasicType(types.BasicType.INT)
+        self._uint_type = types.BasicType(types.BasicType.UINT)
 
         self.predefine_builtin_macros()
 
@@ -1016,9 +1017,13 @@ class CPreProcessor:
                 lhs = 0
             lhs = expressions.NumericLiteral(lhs, self._int_type, token.loc)
         elif token.typ == "NUMBER":
-            lhs, _ = cnum(token.val)
-            # TODO: check type specifier?
-            lhs = expressions.NumericLiteral(lhs, self._int_type, token.loc)
+            lhs, specifiers = cnum(token.val)
+            # C99 6.10.1: all operands are intmax_t or uintmax_t
+            if "unsigned" in specifiers or lhs > self.INTMAX_MAX:
+                typ = self._uint_type
+            else:
+                typ = self._int_type
+            lhs = expressions.NumericLiteral(lhs, typ, token.loc)
         elif token.typ == "CHAR":
             lhs, _ = charval(replace_escape_codes(token.val))
             # TODO: check type specifier?
@@ -1083,16 +1088,47 @@ class CPreProcessor:
         else:
             return False
 
+    INTMAX_MAX = 2**63 - 1
+    UINTMAX_MAX = 2**64 - 1
+
     def _eval_tree(self, expr):
         """Evaluate a parsed tree"""
+        return self._eval_typed(expr)[0]
+
+    def _is_unsigned(self, expr):
+        """Determine if the expression has type uintmax_t (else intmax_t)."""
+        if isinstance(expr, expressions.NumericLiteral):
+            return expr.typ is self._uint_type
+        elif isinstance(expr, expressions.UnaryOperator):
+            return expr.op != "!" and self._is_unsigned(expr.a)
+        elif isinstance(expr, expressions.BinaryOperator):
+            if expr.op in ("<", ">", "<=", ">=", "==", "!=", "&&", "||"):
+                return False
+            elif expr.op in ("<<", ">>"):
+                return self._is_unsigned(expr.a)
+            else:
+                return self._is_unsigned(expr.a) or self._is_unsigned(expr.b)
+        elif isinstance(expr, expressions.TernaryOperator):
+            return self._is_unsigned(expr.b) or self._is_unsigned(expr.c)
+        else:  # pragma: no cover
+            raise NotImplementedError(str(expr))
+
+    def _eval_typed(self, expr):
+        """Evaluate a parsed tree into a (value, is_unsigned) pair.
+
+        Arithmetic is done in intmax_t / uintmax_t, see C99 6.10.1.
+        """
+        unsigned = self._is_unsigned(expr)
         if isinstance(expr, expressions.NumericLiteral):
             value = expr.value
         elif isinstance(expr, expressions.UnaryOperator):
-            value = self._eval_tree(expr.a)
+            value = self._eval_typed(expr.a)[0]
             if expr.op == "!":
                 value = int(not bool(value))
             elif expr.op == "-":
                 value = -value
+            elif expr.op == "+":
+                pass
             elif expr.op == "~":
                 value = ~value
             else:  # pragma: no cover
@@ -1100,38 +1136,49 @@ class CPreProcessor:
         elif isinstance(expr, expressions.BinaryOperator):
             if expr.op == "||":
                 # Short circuit logic:
-                value = self._eval_tree(expr.a)
+                value = self._eval_typed(expr.a)[0]
                 if not value:
-                    value = self._eval_tree(expr.b)
+                    value = self._eval_typed(expr.b)[0]
                 value = int(bool(value))
             elif expr.op == "&&":
                 # Short circuit logic:
-                value = self._eval_tree(expr.a)
+                value = self._eval_typed(expr.a)[0]
                 if value:
-                    value = self._eval_tree(expr.b)
+                    value = self._eval_typed(expr.b)[0]
                 value = int(bool(value))
-            elif expr.op in ("/", "%"):
-                a = self._eval_tree(expr.a)
-                b = self._eval_tree(expr.b)
-                if b == 0:
-                    self.error("Division by zero in #if", loc=expr.location)
-                # C division truncates towards zero:
-                quotient = abs(a) // abs(b)
-                if (a < 0) != (b < 0):
-                    quotient = -quotient
-                value = quotient if expr.op == "/" else a - quotient * b
             else:
-                func = self.OP_MAP[expr.op][2]
-                value = func(self._eval_tree(expr.a), self._eval_tree(expr.b))
+                a, a_unsigned = self._eval_typed(expr.a)
+                b, b_unsigned = self._eval_typed(expr.b)
+                if expr.op not in ("<<", ">>") and (a_unsigned or b_unsigned):
+                    # Usual arithmetic conversions:
+                    a &= self.UINTMAX_MAX
+                    b &= self.UINTMAX_MAX
+                if expr.op in ("/", "%"):
+                    if b == 0:
+                        self.error(
+                            "Division by zero in #if", loc=expr.location
+                        )
+                    # C division truncates towards zero:
+                    quotient = abs(a) // abs(b)
+                    if (a < 0) != (b < 0):
+                        quotient = -quotient
+                    value = quotient if expr.op == "/" else a - quotient * b
+                else:
+                    func = self.OP_MAP[expr.op][2]
+                    value = func(a, b)
         elif isinstance(expr, expressions.TernaryOperator):
-            value = self._eval_tree(expr.a)
-            if value:
-                value = self._eval_tree(expr.b)
+            if self._eval_typed(expr.a)[0]:
+                value = self._eval_typed(expr.b)[0]
             else:
-                value = self._eval_tree(expr.c)
+                value = self._eval_typed(expr.c)[0]
         else:  # pragma: no cover
             raise NotImplementedError(str(expr))
-        return value
+
+        # Wrap around at 64 bits:
+        value &= self.UINTMAX_MAX
+        if not unsigned and value > self.INTMAX_MAX:
+            value -= self.UINTMAX_MAX + 1
+        return value, unsigned
 
 
 class FileExpander:
